@@ -265,6 +265,9 @@ func main() {
 		Bounds: func(sc *sess.Scenario) sched.Bounds {
 			// each further event of a history costs one delay
 			d := max(D-strings.Count(sc.Name, " ; "), 0)
+			if sc.Name == "H[close ; close]" {
+				d = D // the second reconnect is where a leaked routine of the first one shows: full delay bound
+			}
 			if strings.HasPrefix(sc.Name, "F[") {
 				d = max(d-1, 0) // every execution repeats the key exchange
 			}
